@@ -11,7 +11,8 @@
      WaitForReaders          <-s.hasReaders
      OutboundBytes           mutex.RLock(); read rtspStream / rtspsStream; mutex.RUnlock()
      RTSPStream/RTSPSStream  mutex.Lock(); if s.rtspStream == nil { create }; mutex.Unlock()
-     Close                   no lock: offline sub-stream, error dumper, RTSP streams
+     Close                   offline sub-stream, error dumper (no lock); mutex.RLock(); read rtspStream / rtspsStream;
+                             mutex.RUnlock(); close them   (the RLock is fix b0c271a; before it: no lock at all)
      OpHold w                any other well-behaved user of the mutex (the driver's observers): Lock;Unlock / RLock;RUnlock
 
    sync.RWMutex as it is: Lock() = take rw.w and announce the writer (ILockReq: from now on new RLock calls wait),
@@ -44,7 +45,7 @@ Inductive instr :=
 | IWaitHas               (* <-s.hasReaders *)
 | IStats                 (* s.rtspStream.Stats() / s.rtspsStream.Stats() if present *)
 | IRtspInit              (* if s.rtspStream == nil { s.rtspStream = new ServerStream } *)
-| ICloseRes.             (* Stream.Close() *)
+| ICloseRes.             (* Stream.Close(): reads s.rtspStream / s.rtspsStream, closes what it has read *)
 
 Inductive op :=
 | OpAdd (r : nat) | OpRemove (r : nat) | OpWrite (ss : nat) | OpSwitch (ss : nat) | OpWait | OpClose | OpStats | OpRtsp
@@ -54,8 +55,9 @@ Inductive op :=
    UnlockBeforeCheck  AddReader unlocks explicitly after the registration, the check-then-close comes after it
    UnregAfterUnlock   RemoveReader unlocks before the deletes
    AddUnderRLock      AddReader takes the read lock
-   WriteNoLock        WriteUnit without RLock/RUnlock *)
-Inductive variant := Code | UnlockBeforeCheck | UnregAfterUnlock | AddUnderRLock | WriteNoLock.
+   WriteNoLock        WriteUnit without RLock/RUnlock
+   CloseNoLock        Close() reads the RTSP streams without the mutex: the code before fix b0c271a *)
+Inductive variant := Code | UnlockBeforeCheck | UnregAfterUnlock | AddUnderRLock | WriteNoLock | CloseNoLock.
 
 Definition prog (v : variant) (o : op) : list instr :=
   match o with
@@ -77,7 +79,7 @@ Definition prog (v : variant) (o : op) : list instr :=
       end
   | OpSwitch ss => [ILockReq; ILockAcq; ISetCur ss; IUnlock]
   | OpWait => [IWaitHas]
-  | OpClose => [ICloseRes]
+  | OpClose => match v with CloseNoLock => [ICloseRes] | _ => [IRLock; ICloseRes; IRUnlock] end
   | OpStats => [IRLock; IStats; IRUnlock]
   | OpRtsp => [ILockReq; ILockAcq; IRtspInit; IUnlock]
   | OpHold true => [ILockReq; ILockAcq; IUnlock]
@@ -163,7 +165,7 @@ Definition exec (p : nat) (fl : bool) (i : instr) (x : glob) : result :=
   | IWaitHas => if has_closed x then Next x fl else Blocked
   | IStats => if holds_any x p then Next x fl else Crash PRace
   | IRtspInit => if holds_w x p then Next (set_rtsp x) fl else Crash PRace
-  | ICloseRes => Next (set_res_closed x) fl
+  | ICloseRes => if holds_any x p then Next (set_res_closed x) fl else Crash PRace
   end.
 
 Fixpoint set_nth (p : nat) (pr : proc) (l : list proc) : list proc :=
